@@ -19,3 +19,84 @@ package entry
 //@   ensures [result-can-be-negated] result > 0 - 9223372036854775807
 //@   observe l.Time, b.(*LamportClock).Time
 //@   replay clockcompare
+
+// ---- entry_map.go: OrderedMap against its representation invariant ----
+// omInv: the map exists, keys are pairwise distinct, every key is present in the value map.
+//@ define omInv(o *OrderedMap) = o != nil && o.values != nil && off(o.keys) == 0 && (forall i int, j int :: 0 <= i && i < j && j < len(o.keys) ==> o.keys[i] != o.keys[j]) && (forall i int :: 0 <= i && i < len(o.keys) ==> has(o.values, o.keys[i]))
+//@ define isOM(m iface.IPFSLogOrderedEntries) = typeis(m, "*OrderedMap") && omInv(m.(*OrderedMap))
+//@ guarded OrderedMap.keys by OrderedMap.lock
+//@ guarded OrderedMap.values by OrderedMap.lock
+
+//@ func NewOrderedMap
+//@   ensures isOM(result) && fresh(result) && fresh(result.(*OrderedMap).values)
+//@   ensures len(result.(*OrderedMap).keys) == 0
+//@   ensures forall k string :: !has(result.(*OrderedMap).values, k)
+//@   lockensures held[result.(*OrderedMap).lock] == 0
+
+//@ func (*OrderedMap).Get
+//@   requires omInv(o)
+//@   lockrequires held[o.lock] >= 0
+//@   pure
+//@   ensures result1 == has(o.values, key)
+//@   ensures result1 ==> result0 == o.values[key]
+//@   ensures !result1 ==> result0 == nil
+
+//@ func (*OrderedMap).UnsafeGet
+//@   requires omInv(o)
+//@   lockrequires held[o.lock] >= 0
+//@   pure
+//@   ensures has(o.values, key) ==> result == o.values[key]
+//@   ensures !has(o.values, key) ==> result == nil
+
+//@ func (*OrderedMap).Set
+//@   requires omInv(o)
+//@   lockrequires held[o.lock] == 0
+//@   modifies o.keys, mapof(o.values)
+//@   ensures omInv(o) && o.values == old(o.values)
+//@   ensures has(o.values, key) && o.values[key] == value
+//@   ensures forall k string :: k != key ==> has(o.values, k) == old(has(o.values, k)) && o.values[k] == old(o.values[k])
+//@   ensures old(has(o.values, key)) ==> o.keys == old(o.keys)
+//@   ensures !old(has(o.values, key)) ==> len(o.keys) == old(len(o.keys)) + 1 && o.keys[old(len(o.keys))] == key
+//@   ensures !old(has(o.values, key)) ==> forall i int :: 0 <= i && i < old(len(o.keys)) ==> o.keys[i] == old(o.keys[i])
+
+//@ func (*OrderedMap).Keys
+//@   requires o != nil
+//@   lockrequires held[o.lock] >= 0
+//@   pure
+//@   ensures result == o.keys
+
+//@ func (*OrderedMap).Len
+//@   requires o != nil
+//@   lockrequires held[o.lock] >= 0
+//@   pure
+//@   ensures result == len(o.keys)
+
+//@ func (*OrderedMap).At
+//@   requires omInv(o)
+//@   lockrequires held[o.lock] >= 0
+//@   pure
+//@   ensures index < len(o.keys) ==> result == o.values[o.keys[index]]
+//@   ensures index >= len(o.keys) ==> result == nil
+
+//@ func (*OrderedMap).Slice
+//@   requires omInv(o)
+//@   lockrequires held[o.lock] >= 0
+//@   ensures fresh(result) && len(result) == len(o.keys) && off(result) == 0
+//@   ensures forall i int :: 0 <= i && i < len(o.keys) ==> result[i] == o.values[o.keys[i]]
+//@   loop 0
+//@     invariant forall j int :: 0 <= j && j < $k ==> out[j] == o.values[o.keys[j]]
+//@     invariant fresh(out) && len(out) == len(o.keys) && off(out) == 0
+//@     loopmodifies elems(out)
+
+//@ func (*OrderedMap).Reverse
+//@   requires omInv(o)
+//@   lockrequires held[o.lock] == 0
+//@   modifies elems(o.keys)
+//@   ensures typeis(result, "*OrderedMap") && result.(*OrderedMap) == o && omInv(o)
+//@   ensures forall i int :: 0 <= i && i < len(o.keys) ==> o.keys[i] == old(o.keys[len(o.keys) - 1 - i])
+//@   loop 0
+//@     invariant 0 - 1 <= i && i <= len(o.keys) / 2 - 1
+//@     invariant forall j int :: i < j && j <= len(o.keys) - 2 - i ==> o.keys[j] == old(o.keys[len(o.keys) - 1 - j])
+//@     invariant forall j int :: 0 <= j && j <= i ==> o.keys[j] == old(o.keys[j])
+//@     invariant forall j int :: len(o.keys) - 1 - i <= j && j < len(o.keys) ==> o.keys[j] == old(o.keys[j])
+//@     loopmodifies elems(o.keys)
